@@ -184,11 +184,13 @@ class AnnounceOracle:
                 self.started = True
                 for i in self.order:
                     self._start(i, T)
-        elif f in ("stop", "ann_stop", "conn_lost"):
-            if f == "conn_lost":
-                if self.conn_lost:
-                    return
+        elif f == "conn_lost":
+            # connection_lost() hands its parts to call_soon(): the announcer stops one loop
+            # iteration later (see walk)
+            if not self.conn_lost:
                 self.conn_lost = True
+                self.deferred_stop = self.cur_it
+        elif f in ("stop", "ann_stop", "conn_lost-now"):
             if self.started:
                 self.started = False
                 for i in self.insts:
@@ -482,7 +484,12 @@ class AnnounceOracle:
     def walk(self, log):
         # injected busy periods are part of the plan: known up front
         self.busy = [(e[2] - e[5], e[2]) for e in log if e[4] == "busy"]
+        self.deferred_stop = None
         for idx, (seq, it, T, actor, kind, data) in enumerate(log):
+            self.cur_it = it
+            if self.deferred_stop is not None and (it > self.deferred_stop or kind == "idle"):
+                self.deferred_stop = None
+                self.on_op(T, ("call", -1, "conn_lost-now", ()), None)
             if kind == "idle":
                 self.on_idle(T)
             elif kind == "busy":
